@@ -153,8 +153,11 @@ package ship
 //@   ensures !safe ==> c.$closeScheduled == old(c.$closeScheduled)
 //@   ensures [C11] F1-step: @F1STEP(c)
 //@   modifies @cl(c)
-//@ closure (c *ShipConnection).CloseConnection$1$1 [C11]
+// the scheduled part of a graceful close: what the spawn effect promises, the body must do (C11-F1, C04-E6)
+//@ closure (c *ShipConnection).CloseConnection$1$1 [C11,C04]
 //@   spawns c.$closeScheduled && c.$schedReports == old(c.$schedReports) + 1
+//@   ensures [C11] F1-body: c.$reports == old(c.$reports) + 1
+//@   ensures [C04] E6-body: c.dataWriter.$wsClosed
 //@   modifies c.$closeScheduled, c.$schedReports
 //@ func (c *ShipConnection).endHandshakeWithError(err) [C04]
 //@   requires err != nil
@@ -186,8 +189,9 @@ package ship
 //@   ensures [C01] G4-reader: @READER(c)
 //@   ensures [C11] F1-step: @F1STEP(c)
 //@   modifies @hs(c)
-//@ closure (c *ShipConnection).handleState$1
+//@ closure (c *ShipConnection).handleState$1 [C04]
 //@   spawns c.$closeScheduled
+//@   ensures [C04] E6-body: c.shutdownOnce.$done
 //@   modifies c.$closeScheduled
 //@ func (c *ShipConnection).setAndHandleState(state) [C04,C01]
 //@   decreases rank(c.role, state), 0, 3
